@@ -1,4 +1,5 @@
 pub mod catp;
+pub mod codp;
 pub mod credp;
 pub mod encp;
 pub mod grpp;
@@ -22,6 +23,7 @@ pub fn plan(prop: &str, tier: &str) -> Option<(PropMeta, Vec<Job>)> {
         "C08" => Some(grpp::plan(tier)),
         "C17" => Some(selp::plan(tier)),
         "C09" => Some(permp::plan(tier)),
+        "C13" => Some(codp::plan(tier)),
         _ => None,
     }
 }
@@ -37,6 +39,7 @@ pub fn run_job(job: &Job) -> JobResult {
         "C08" => grpp::run_job(job),
         "C17" => selp::run_job(job),
         "C09" => permp::run_job(job),
+        "C13" => codp::run_job(job),
         p => JobResult { machinery_error: Some(format!("unknown property {p}")), ..Default::default() },
     }
 }
